@@ -16,9 +16,9 @@ func init() {
 	register(&mon.Spec{
 		ID:    "C07",
 		Level: "exploration",
-		Rule: "ten gate scripts against p9p.ServeConn with a scripted Handler, each repeated R times with PRNG-chosen tags, message kinds, extra background requests and sub-orderings (the server's own select between 'completed' and 'context done' is random, hence the repetitions): " +
+		Rule: "eleven gate scripts against p9p.ServeConn with a scripted Handler, each repeated R times with PRNG-chosen tags, message kinds, extra background requests and sub-orderings (the server's own select between 'completed' and 'context done' is random, hence the repetitions): " +
 			"(1) flush while the handler runs, handler honours cancellation; (2) handler ignores cancellation and completes after the Rflush; (3) as 2 but the tag is reused by request B before A completes, A then B; (4) as 3 with A and B completing together; " +
-			"(5) completion and Tflush issued back-to-back in both orders; (6) flush of a tag that was never used; (7) flush naming its own tag; (8) double flush; (9) flush, then immediate reuse of the tag (must be dispatched, not refused as duplicate); (10) the client stops reading so that the server's writer and serve loop stall, then a request and the Tflush naming it arrive in one write. " +
+			"(5) completion and Tflush issued back-to-back in both orders; (6) flush of a tag that was never used; (7) flush naming its own tag; (8) double flush; (9) flush, then immediate reuse of the tag (must be dispatched, not refused as duplicate); (10) the client stops reading so that the server's writer and serve loop stall, then a request and the Tflush naming it arrive in one write; (11) a request is dispatched, the client stops reading so that one bulky reply occupies the server's writer, the Tflush arrives (its acknowledgement cannot be written yet), then the client either hangs up (serving must return and the flushed handler must have been cancelled) or drains (acknowledgement arrives, handler cancelled, flushed request silent). The request that gets flushed is of a PRNG-chosen kind (Tstat, Tclunk, Tremove, Topen, Tread, Twrite, Twalk, Tcreate, Twstat, Tattach, Tauth). " +
 			"Oracle over the wire log (reference-codec parsed) and handler observations: flushed handler's ctx is Done once the flush is answered; every Tflush gets exactly one reply; no reply to the flushed request after the flush reply (at most one before it, in script 5); a reply on a reused tag carries the new request's uid, never the flushed one's; every non-flushed request is answered exactly once. " +
 			"non-trivial = the flushed handler returned after the cancellation (late completion); distinct by (script, variant, background pattern)",
 		Assumptions: []string{
@@ -30,7 +30,7 @@ func init() {
 		Shards:    shards(8, 16),
 		Timeout:   timeouts(3*time.Minute, 40*time.Minute),
 		MinEvals:  100,
-		Required:  []string{"script:1", "script:2", "script:3", "script:4", "script:5", "script:6", "script:7", "script:8", "script:9", "script:10", "late_completions", "flush_replies_checked", "ctx_done_observed", "reused_tag_replies_checked"},
+		Required:  []string{"script:1", "script:2", "script:3", "script:4", "script:5", "script:6", "script:7", "script:8", "script:9", "script:10", "script:11", "busy_writer_then_close", "busy_writer_then_drain", "late_completions", "flush_replies_checked", "ctx_done_observed", "reused_tag_replies_checked"},
 		Run:       runC07,
 	})
 }
@@ -57,10 +57,67 @@ func (c *c07) send(tag p9p.Tag, m p9p.Message) {
 	c.h.send(&p9p.Fcall{Type: m.Type(), Tag: tag, Message: m})
 }
 
+// request sends a request of a PRNG-chosen kind whose fid field carries a fresh uid
+// (ServeConn hands every kind to the Handler alike; the handler answers with an Rstat naming the uid).
 func (c *c07) request(tag p9p.Tag) (uid int) {
 	c.uid++
-	c.send(tag, p9p.MessageTstat{Fid: p9p.Fid(c.uid)})
+	f := p9p.Fid(c.uid)
+	var m p9p.Message
+	switch c.w.Rng.Intn(12) {
+	case 0:
+		m = p9p.MessageTclunk{Fid: f}
+	case 1:
+		m = p9p.MessageTremove{Fid: f}
+	case 2:
+		m = p9p.MessageTopen{Fid: f, Mode: p9p.OREAD}
+	case 3:
+		m = p9p.MessageTread{Fid: f, Offset: 0, Count: 16}
+	case 4:
+		m = p9p.MessageTwrite{Fid: f, Offset: 0, Data: []byte("w")}
+	case 5:
+		m = p9p.MessageTwalk{Fid: f, Newfid: f + 5000, Wnames: []string{"a"}}
+	case 6:
+		m = p9p.MessageTcreate{Fid: f, Name: "n", Perm: 0644, Mode: p9p.OREAD}
+	case 7:
+		m = p9p.MessageTwstat{Fid: f, Stat: p9p.Dir{Name: "n"}}
+	case 8:
+		m = p9p.MessageTattach{Fid: f, Afid: p9p.NOFID, Uname: "u", Aname: ""}
+	case 9:
+		m = p9p.MessageTauth{Afid: f, Uname: "u", Aname: ""}
+	default:
+		m = p9p.MessageTstat{Fid: f}
+	}
+	c.w.Count("flushable_kind:"+m.Type().String(), 1)
+	c.send(tag, m)
 	return c.uid
+}
+
+func c07uid(m p9p.Message) int {
+	switch v := m.(type) {
+	case p9p.MessageTclunk:
+		return int(v.Fid)
+	case p9p.MessageTremove:
+		return int(v.Fid)
+	case p9p.MessageTopen:
+		return int(v.Fid)
+	case p9p.MessageTread:
+		return int(v.Fid)
+	case p9p.MessageTwrite:
+		return int(v.Fid)
+	case p9p.MessageTwalk:
+		return int(v.Fid)
+	case p9p.MessageTcreate:
+		return int(v.Fid)
+	case p9p.MessageTwstat:
+		return int(v.Fid)
+	case p9p.MessageTattach:
+		return int(v.Fid)
+	case p9p.MessageTauth:
+		return int(v.Afid)
+	case p9p.MessageTstat:
+		return int(v.Fid)
+	}
+	return -1
 }
 
 func (c *c07) settle() bool {
@@ -75,7 +132,7 @@ func (c *c07) settle() bool {
 // started returns the invocation for uid (must have been dispatched).
 func (c *c07) inv(uid int) *invocation {
 	for _, in := range c.sh.snapshot() {
-		if ts, ok := in.msg.(p9p.MessageTstat); ok && int(ts.Fid) == uid {
+		if c07uid(in.msg) == uid {
 			return in
 		}
 	}
@@ -108,7 +165,7 @@ func (c *c07) complete(uid int) {
 func runC07(w *mon.W) {
 	R := w.Scale(90, 3000)
 	caseNo := 0
-	for script := 1; script <= 10; script++ {
+	for script := 1; script <= 11; script++ {
 		for rep := 0; rep < R; rep++ {
 			caseNo++
 			if !w.Mine(caseNo) {
@@ -120,11 +177,11 @@ func runC07(w *mon.W) {
 }
 
 func runC07Case(w *mon.W, script, no int) {
-	honour := script == 1
+	honour := script == 1 || script == 11
 	sh := &scriptHandler{honour: func(p9p.Message) bool { return honour }}
 	w.Case("C07 script %d case #%d", script, no)
 	bufCap := 1 << 20
-	if script == 10 {
+	if script == 10 || script == 11 {
 		bufCap = 96 // a connection that buffers little: the server's writer can be stalled
 	}
 	h, err := newSrvH(sh, 8192, bufCap)
@@ -138,6 +195,10 @@ func runC07Case(w *mon.W, script, no int) {
 	w.Count(fmt.Sprintf("script:%d", script), 1)
 	if script == 10 {
 		runC07Stalled(w, h, sh, no)
+		return
+	}
+	if script == 11 {
+		runC07BusyWriter(w, h, sh, no)
 		return
 	}
 	c := &c07{w: w, h: h, sh: sh, no: no}
@@ -476,4 +537,93 @@ func runC07Stalled(w *mon.W, h *srvH, sh *scriptHandler, no int) {
 		}
 	}
 	w.NT("s10/dispatched")
+}
+
+// runC07BusyWriter: script 11.
+func runC07BusyWriter(w *mon.W, h *srvH, sh *scriptHandler, no int) {
+	c := &c07{w: w, h: h, sh: sh, no: no}
+	sh.instant = func(msg p9p.Message) (p9p.Message, error, bool) {
+		if ts, ok := msg.(p9p.MessageTstat); ok && ts.Fid >= 1000 {
+			return p9p.MessageRstat{Stat: p9p.Dir{Name: fmt.Sprintf("bulk-%d-%s", ts.Fid, strings.Repeat("x", 1500))}}, nil, true
+		}
+		return nil, nil, false
+	}
+	a := c.request(7)
+	if !c.settle() {
+		return
+	}
+	in := c.inv(a)
+	if in == nil {
+		c.bad("not-dispatched", "request uid=%d was never dispatched", a)
+		return
+	}
+	h.pauseReads()
+	c.send(200, p9p.MessageTstat{Fid: 1000}) // its reply does not fit the connection's buffer: the writer stays in Write
+	if !c.settle() {
+		h.resumeReads()
+		return
+	}
+	c.send(8, p9p.MessageTflush{Oldtag: 7})
+	if !c.settle() {
+		h.resumeReads()
+		return
+	}
+	cancelledWhilePending := in.ctx.Err() != nil
+	if cancelledWhilePending {
+		w.Count("cancelled_while_ack_pending", 1)
+	} else {
+		w.Count("not_cancelled_while_ack_pending", 1)
+	}
+	if w.Rng.Intn(2) == 0 {
+		// the client hangs up without ever reading the acknowledgement
+		c.trace = append(c.trace, "client closes")
+		w.Count("busy_writer_then_close", 1)
+		// only the connection goes away; the serving context stays alive
+		h.cli.Close()
+		q := mon.AwaitQuiesce(h.serveDone)
+		ret := q.Done
+		h.resumeReads()
+		if !ret {
+			if q.Hung {
+				c.bad("serve-hang-after-flush", "the client flushed a request while the server's writer was busy and then hung up: ServeConn never returns (flushed handler cancelled: %v); blocked at %s", in.ctx.Err() != nil, q.Sites)
+			} else {
+				w.Inconclusive("watchdog waiting for ServeConn")
+			}
+			return
+		}
+		if in.ctx.Err() == nil {
+			c.bad("ctx-not-cancelled", "the flushed request's handler context was never cancelled although the flush was processed and the connection then closed")
+			return
+		}
+		w.Count("ctx_done_observed", 1)
+		w.NT(fmt.Sprintf("s11/close/%v", cancelledWhilePending))
+		return
+	}
+	w.Count("busy_writer_then_drain", 1)
+	h.resumeReads()
+	if !c.settle() {
+		return
+	}
+	rs := h.take()
+	var flushReply *p9p.Fcall
+	for _, r := range rs {
+		if r.Tag == 8 {
+			flushReply = r
+		}
+		if r.Tag == 7 {
+			c.bad("reply-after-rflush", "busy writer: the flushed request was answered: %s", describeReplies(rs))
+			return
+		}
+	}
+	w.Count("flush_replies_checked", 1)
+	if flushReply == nil || flushReply.Type != p9p.Rflush {
+		c.bad("missing-reply:flush", "busy writer: the Tflush was not acknowledged with Rflush; replies %s", describeReplies(rs))
+		return
+	}
+	if in.ctx.Err() == nil {
+		c.bad("ctx-not-cancelled", "busy writer: the flush was acknowledged but the handler's context is not cancelled")
+		return
+	}
+	w.Count("ctx_done_observed", 1)
+	w.NT(fmt.Sprintf("s11/drain/%v", cancelledWhilePending))
 }
